@@ -754,7 +754,21 @@ def sk1(F, R):
         R.bad(fn, "anchor", "no update_length call in write", kind="anchor-missing")
     for b, t in ul:
         ok, _ = guarded(fn, b, g_cmp("Gt", True, None, is_size))
+        # the same as a value: update_length(max(size, new_offset)) never shrinks either
+        ok = ok or max_with(fn.term_of_operand(t["args"][1], b), is_size) is not None
         R.require(ok, fn, "grow-only", "update_length reachable without `new_offset > size`", fn.loc(b))
+
+
+def max_with(term, is_x):
+    """for `max(x, y)` / `x.max(y)` (either order) with is_x(x): y; else None"""
+    t = strip_refs(term)
+    if t[0] == "call" and t[1] and t[1].split("::")[-1] == "max" and len(t[2]) == 2:
+        a, b = strip_refs(t[2][0]), strip_refs(t[2][1])
+        if is_x(a):
+            return b
+        if is_x(b):
+            return a
+    return None
 
 
 # ---------------------------------------------------------------------------------------
